@@ -23,7 +23,7 @@
         create time) of an attachment of the file replaced: it is one byte of the file, and the
         callback gets a computed CRC that differs from the stored one.  The stored CRC is the
         CRC-32 of fields ++ data whether or not the writer has CRCs enabled. *)
-From Mcap Require ConstsTie LayoutTie. (* regenerated ties to /repo's source that this property's model relies on *)
+From Mcap Require ConstsTie LayoutTie DecisionTieL. (* regenerated ties to /repo's source that this property's model relies on *)
 From Coq Require Import List NArith ZArith Bool.
 From Coq.Strings Require Import Byte.
 From Mcap Require Import Bytes GoSem Crc32 Records RecordsFacts Writer WriterFactsA WriterFactsB
